@@ -6,7 +6,7 @@ from lib import cbuild
 ID = "C01"
 LEAN_MODULES = ["AwsVerif.Props.C01"]
 COMPONENT = "bytebuf"
-HARNESS = dict(name="bytebuf", flavour="asan")
+HARNESS = dict(name="bytebuf", flavour="asan", ldflags=("-Wl,--wrap=fread", "-Wl,--wrap=feof"))   # file.c reads a simulated file
 P_DIFF_CONCRETE = True
 TIMEOUT = 600
 # memset(NULL, c, 0) in aws_byte_buf_write_u8_n on a zero-capacity buffer: recoverable UBSan nonnull report, see the file
@@ -17,6 +17,9 @@ HALF = MAX // 2
 
 TRUSTED = ["hand model lean/AwsVerif/Model/ByteBuf.lean (tied to byte_buf.c by this correspondence run only)",
            "gen/bytebuf_tables.py (s_tolower_table / s_hex_to_num_table re-read from byte_buf.c on every run)",
+           "gen/bytebuf_fns.py + gen/cfun.py + gen/math_gen.py (aws_nospec_mask, aws_is*, six guard expressions, checked arithmetic "
+           "re-translated from the C source on every run; the empty asm barrier of aws_nospec_mask is dropped)",
+           "harness: fread/feof of file.c wrapped at link time to serve a simulated file (size, data, short-read schedule)",
            "harness/bytebuf.c: numbering allocator, 0xCD fill for never-written bytes, canary-guarded pool"]
 ASSUMPTIONS = ["aws_mem_acquire returns a fresh block or aborts (allocation-failure branches not modelled)",
                "the allocator's mem_realloc moves the block: fresh block, copy of the old capacity, release of the old one",
@@ -40,6 +43,16 @@ def regen(ctx):
     except OSError as e:
         raise GenError("cannot read byte_buf.c: %s" % e)
     write_if_changed(os.path.join(LEAN, "AwsVerif", "Gen", "ByteBufTables.lean"), txt)
+    # pure leaf functions and guard expressions of byte_buf.c, and the checked arithmetic of math*.inl, re-translated
+    # from the current source (gen/cfun.py); Props/C01.lean proves Model.f = Gen.f for each of them
+    from gen import bytebuf_fns, math_gen, cfun
+    try:
+        fns, _ = bytebuf_fns.generate(cbuild.REPO, cbuild.config_include())
+        lean_math, _, _ = math_gen.generate(cbuild.REPO, cbuild.config_include())
+    except cfun.GenError as e:
+        raise GenError(str(e))
+    write_if_changed(os.path.join(LEAN, "AwsVerif", "Gen", "ByteBufFns.lean"), fns)
+    write_if_changed(os.path.join(LEAN, "AwsVerif", "Gen", "Math.lean"), lean_math)
 
 
 def _not_proved():
@@ -70,7 +83,7 @@ def rbytes(rng, n, style=None):
     if style == "hexdigits":
         return bytes(rng.choice(b"0123456789abcdefABCDEF") for _ in range(n))
     if style == "spaces":
-        return bytes(rng.choice(b"  \t\nab1") for _ in range(n))
+        return bytes(rng.choice(b"  \t\n\x0b\x0c\rab1") for _ in range(n))
     if style == "csv":
         return bytes(rng.choice(b"ab,,c") for _ in range(n))
     if style == "any":
@@ -181,6 +194,7 @@ WEIGHTS = [
     ("clean_up_secure", 2), ("init_copy", 2), ("init_copy_from_cursor", 2), ("new_buf", 2), ("new_cur", 8),
     ("advance", 6), ("advance_nospec", 4), ("read", 3), ("read_be", 6), ("read_hex_u8", 2), ("read_and_fill_buffer", 2),
     ("next_split", 5), ("split", 3), ("find_exact", 3), ("trim", 3), ("starts_with", 2), ("eq", 4), ("compare", 3), ("parse", 3),
+    ("init_from_file", 4), ("float", 3), ("c_str", 2), ("string", 3), ("hash", 1), ("valid", 1), ("init_cache", 2), ("array_eq", 2),
 ]
 DYN_OPS = {"append_dynamic", "append_dynamic_secure", "append_byte_dynamic", "append_byte_dynamic_secure", "append_null_terminator",
            "reserve", "reserve_relative", "reserve_smart", "reserve_smart_relative"}
@@ -415,6 +429,71 @@ def gen_op(rng, m, ops):
     elif k == "compare":
         d = rng.randrange(4)
         ops.append(f"{rng.choice(['compare_lexical', 'compare_lookup'])} c{c} c{d}")
+    elif k == "init_from_file":
+        free = [i for i in range(4) if not m.b[i] or m.b[i]["cap"] == 0]
+        if free:
+            d = rng.choice(free)
+            ops.append(gen_file_op(rng, d))
+            m.b[d] = None      # result depends on the schedule: unknown to the mirror
+    elif k == "float":
+        if rng.random() < 0.6:
+            w = rng.choice([32, 64])
+            v = rng.choice([0, 1 << (w - 1), 0x3f800000 if w == 32 else 0x3ff0000000000000, (0x7fc00001 if w == 32 else 0x7ff8000000000001),
+                            (0x7f800000 if w == 32 else 0x7ff0000000000000), rng.getrandbits(w)])
+            ops.append(f"write_float_be{w} b{b} 0x{v:x}")
+            if mb and m.free(b) >= w // 8:
+                mb["len"] += w // 8
+        else:
+            ops.append(f"read_float_be{rng.choice([32, 64])} c{c}")
+    elif k == "c_str":
+        bs = rbytes(rng, rng.choice([0, 1, 3, 6]))
+        if rng.random() < 0.5:
+            ops.append(f"cur_from_c_str c{c} {hexs(bs)}")
+            m.c[c] = dict(len=len(bs.split(b'\0')[0]), base="ext")
+        else:
+            free = [i for i in range(4) if not m.b[i] or m.b[i]["cap"] == 0]
+            if free:
+                d = rng.choice(free)
+                ops.append(f"buf_from_c_str b{d} {hexs(bs)}")
+                n = len(bs.split(b'\0')[0])
+                m.b[d] = dict(len=n, cap=n, own=False)
+    elif k == "string":
+        bs = rbytes(rng, rng.choice([0, 1, 2, 4, 7]))
+        r = rng.random()
+        if r < 0.35:
+            ops.append(f"cur_from_string c{c} {hexs(bs)}")
+            m.c[c] = dict(len=len(bs), base="ext")
+        elif r < 0.6:
+            n = size_near(rng, m, b)
+            bs = rbytes(rng, n)
+            ops.append(f"write_from_whole_string b{b} {hexs(bs)}")
+            if mb and n <= m.free(b):
+                mb["len"] += n
+        elif r < 0.8:
+            ops.append(f"string_eq_cursor{rng.choice(['', '_ignore_case'])} {hexs(bs)} c{c}")
+        else:
+            ops.append(f"string_eq_buf{rng.choice(['', '_ignore_case'])} {hexs(bs)} b{b}")
+    elif k == "hash":
+        ops.append(f"hash_ignore_case c{c}")
+    elif k == "valid":
+        ops.append(rng.choice([f"buf_is_valid b{b}", f"cur_is_valid c{c}"]))
+    elif k == "init_cache":
+        free = [i for i in range(4) if not m.b[i] or m.b[i]["cap"] == 0]
+        if free:
+            d = rng.choice(free)
+            cs = [rng.randrange(4) for _ in range(rng.randint(1, 3))]
+            ops.append(f"init_cache b{d} " + " ".join(f"c{x}" for x in cs))
+            tot = sum(m.c[x]["len"] if m.c[x] else 0 for x in cs)
+            m.b[d] = dict(len=tot, cap=tot, own=True)
+            for x in cs:
+                if m.c[x]:
+                    m.c[x]["base"] = d
+    elif k == "array_eq":
+        d = rng.randrange(4)
+        if rng.random() < 0.5:
+            ops.append(f"array_eq{rng.choice(['', '_ignore_case'])} c{c} c{d}")
+        else:
+            ops.append(f"array_eq_c_str{rng.choice(['', '_ignore_case'])} c{c} {hexs(rbytes(rng, rng.choice([0, 1, 2, 3, 5])))}")
     elif k == "parse":
         if rng.random() < 0.7:
             s = rng.choice([b"", b"0", b"18446744073709551615", b"18446744073709551616", b"ffffffffffffffff", b"10000000000000000",
@@ -422,6 +501,26 @@ def gen_op(rng, m, ops):
             ops.append(f"cur_bytes c{c} {hexs(s)}")
             m.c[c] = dict(len=len(s), base="ext")
         ops.append(f"{rng.choice(['parse_u64', 'parse_u64_hex'])} c{c}")
+
+
+def gen_file_op(rng, d):
+    """aws_byte_buf_init_from_file[_with_size_hint] against a simulated file: reported size, delivered bytes, short reads"""
+    n = rng.choice([0, 1, 2, 5, 31, 32, 33, 63, 64, 65, 100, 200])
+    data = rbytes(rng, n)
+    r = rng.random()
+    statlen = n if r < 0.6 else rng.choice([0, max(0, n - 1), n + 1, 2 * n + 3, n // 2])   # the file changed after fstat
+    if rng.random() < 0.08:
+        return f"init_from_file b{d} 0 0 - - hint 0"                      # fopen fails
+    if rng.random() < 0.55:
+        sched = "-"
+    else:
+        caps = [rng.choice([0, 1, 1, 2, 7, 31, 32, 33, 1000]) for _ in range(rng.randint(1, 6))]
+        if rng.random() < 0.7:
+            caps = [c for c in caps if c > 0] or [1]                        # short reads only, no error
+        sched = ",".join(str(c) for c in caps)
+    if rng.random() < 0.6:
+        return f"init_from_file b{d} 1 {statlen} {hexs(data)} {sched} hint 0"
+    return f"init_from_file b{d} 1 {statlen} {hexs(data)} {sched} nohint {rng.choice([0, 1, n, n + 1, max(0, n - 1), 7, 64])}"
 
 
 def gen_random_case(rng, maxops):
@@ -543,6 +642,8 @@ def small_alphabet():
         "advance c1 1", "advance c1 3", "advance_nospec c1 2", "read c1 2", "read_u8 c0", "read_be16 c1", "read_be24 c1",
         "read_and_fill_buffer c1 b1", "read_and_fill_buffer c1 b0", "append b1 c1", "append b1 c0", "init b3 2", "init_copy b3 b0",
         "init_copy_from_cursor b3 c1", "append b2 c0", "append_dynamic b2 c0", "reserve b2 1", "write_u8_n b2 41 0",
+        "init_from_file b3 1 2 4142 - hint 0", "init_from_file b3 1 3 414243 1,0 hint 0", "init_cache b3 c0 c1", "write_float_be32 b0 0x3f800000",
+        "read_float_be32 c1", "write_from_whole_string b0 4142", "clean_up_secure b3",
     ]
 
 
@@ -572,7 +673,7 @@ def gen_cases(rng, tier):
 
 # ------------------------------------------------------------------ direct oracle (implementation output only)
 _kv = re.compile(r"(\w+)=(\S+)")
-NONRESET_MUT = {"append", "append_with_lookup", "append_dynamic", "append_dynamic_secure", "append_byte_dynamic",
+NONRESET_MUT = {"write_float_be32", "write_float_be64", "write_from_whole_string", "append", "append_with_lookup", "append_dynamic", "append_dynamic_secure", "append_byte_dynamic",
                 "append_byte_dynamic_secure", "append_and_update", "append_null_terminator", "cat", "reserve", "reserve_relative",
                 "reserve_smart", "reserve_smart_relative", "buf_advance", "write", "write_from_whole_buffer", "write_from_whole_cursor",
                 "write_to_capacity", "write_u8", "write_u8_n", "write_be16", "write_be24", "write_be32", "write_be64"}
@@ -633,6 +734,11 @@ def _split_ops(case, lines):
                 g.append(lines[i]); i += 1
             groups.append(g)
             continue
+        if op == "dump_tables":
+            while i < n and lines[i].startswith(("P tolower", "P hex2num")):
+                g.append(lines[i]); i += 1
+            groups.append(g)
+            continue
         while i < n and lines[i].startswith("P release"):
             g.append(lines[i]); i += 1
         if i < n and (lines[i].startswith(("P r ", "P skip", "P FAULT")) or lines[i] == "bad-op"):
@@ -659,7 +765,7 @@ def oracle(case, lines):
                 errs.append(f"{op}: harness monitor: {l}")
             elif l.startswith("P release"):
                 kv = dict(_kv.findall(l))
-                kv["secure"] = " secure " in l
+                kv["secure"] = name in SECURE
                 releases.append(kv)
                 if kv["secure"] and kv.get("zero") != "1":
                     errs.append(f"{op}: block {kv['rid']} ({kv['size']} bytes) released by a secure variant without being zeroed")
@@ -707,7 +813,7 @@ def oracle(case, lines):
         bb, ab = (before_b.get(dest), after_b.get(dest)) if dest is not None else (None, None)
         forged = ab is not None and ab["data"] == "forged"
         # (C) failure leaves every object the call was given exactly as it was
-        if failed and name not in PARTIAL_OK and not name.startswith(("cur_", "buf_from", "buf_forge")):
+        if failed and name not in PARTIAL_OK and not name.startswith(("cur_", "buf_from", "buf_forge", "init_from_file", "init_cache")):
             for s, v in after_b.items():
                 if before_b[s] is not None and before_b[s] != v:
                     errs.append(f"{op}: reported failure but b{s} changed: {before_b[s]} -> {v}")
@@ -799,10 +905,43 @@ def oracle(case, lines):
                         errs.append(f"{op}: read value {res.split()[1]} but the bytes are {src[:k].hex()}")
                     if ca != dict(rid=cb["rid"], off=cb["off"] + k, len=cb["len"] - k):
                         errs.append(f"{op}: cursor {cb} -> {ca}, expected to move by {k}")
+        # (J) init_from_file: failure => cleaned-up (zero) buffer and the block given back last was zeroed; success =>
+        #     contents are exactly the bytes the reads delivered, with room for the terminator (len < cap)
+        if name == "init_from_file" and ab is not None:
+            if failed:
+                if ab["rid"] != "null" or ab["len"] != 0 or ab["cap"] != 0 or ab["own"] != "0":
+                    errs.append(f"{op}: failed but the buffer was not cleaned up: {ab}")
+                if releases and releases[-1].get("zero") != "1":
+                    errs.append(f"{op}: the block handed back by clean_up_secure on the error path was not zeroed")
+            else:
+                data = unhex(t[4])
+                if not isinstance(ab["data"], bytes) or not data.startswith(ab["data"]) or ab["len"] >= (ab["cap"] or 0):
+                    errs.append(f"{op}: contents {ab['data']} / len {ab['len']} cap {ab['cap']} do not match the file bytes {data.hex()}")
+                if t[5] == "-" and ab["data"] != data:
+                    errs.append(f"{op}: whole file expected, got {ab['data']}")
+        # (K) float round trip as bit patterns; hash is FNV-1a of the lower-cased bytes
+        if name in ("write_float_be32", "write_float_be64") and bb and ab and res == "true" and isinstance(bb["data"], bytes):
+            w = 4 if name.endswith("32") else 8
+            exp = bb["data"] + (psize(t[2]) & ((1 << (8 * w)) - 1)).to_bytes(w, "big")
+            if ab["data"] != exp:
+                errs.append(f"{op}: expected contents {exp.hex()} got {ab['data'].hex() if isinstance(ab['data'], bytes) else ab['data']}")
+        if name == "hash_ignore_case" and res.startswith("OK "):
+            cb = st.c.get(int(t[1][1:]))
+            src = st.cur_bytes(cb) if cb else None
+            if src is not None:
+                hv = 0xcbf29ce484222325
+                for x in src:
+                    x = x + 32 if 65 <= x <= 90 else x
+                    hv = ((hv ^ x) * 0x100000001b3) & MAX
+                if int(res.split()[1]) != hv:
+                    errs.append(f"{op}: hash {res.split()[1]} is not FNV-1a of the lower-cased bytes ({hv})")
         # commit what the implementation printed
-        if name == "cur_bytes" and after_c:
+        if name in ("cur_bytes", "cur_from_string") and after_c:
             s = int(t[1][1:])
             st.ext[after_c[s]["rid"]] = unhex(t[2])
+        if name == "cur_from_c_str" and after_c:
+            s = int(t[1][1:])
+            st.ext[after_c[s]["rid"]] = unhex(t[2]).split(b"\0")[0]
         if name == "buf_from_array" and after_b:
             pass
         for s, v in after_b.items():
@@ -824,7 +963,7 @@ def debug_flavour_stage(ctx, exe_asan):
     cases = [gen_random_case(ctx.rng, 40) for _ in range(3000 if quick else 30000)]
     cases += [gen_selfappend_case(ctx.rng) for _ in range(300 if quick else 3000)]
     cases += exhaustive_cases(2)
-    exe_dbg = cbuild.build_harness(name="bytebuf", flavour="debug")
+    exe_dbg = cbuild.build_harness(**dict(HARNESS, flavour="debug"))
     txt = core.batch_text(cases, list(range(len(cases))))
     rc_d, out_d, _ = core.run_stream([exe_dbg], txt, TIMEOUT, C_ENV)
     rc_a, out_a, _ = core.run_stream([exe_asan], txt, TIMEOUT, C_ENV)
@@ -874,8 +1013,8 @@ def distribution(cases, c_out):
                 r["skip"] += 1
             elif l.startswith("P release"):
                 r["release"] += 1
-                if " secure " in l:
-                    r["secure_release"] += 1
+                if l.endswith("zero=1"):
+                    r["secure_release"] += 1      # released blocks that were all-zero
     return d
 
 
@@ -884,14 +1023,17 @@ MANIFEST = dict(
     design_ref="5.1",
     text=("Lean 4 theorems (no sorry, axioms propext/Quot.sound/Classical.choice only) over an executable model of byte_buf.c with "
           "an explicit heap of regions, one Lean function per API function (guards transcribed as written) and one `step` over an "
-          "inductive op language of 55 operation forms (covering 75 API entry points). Fully proved, for every operation, every state and every operation sequence: "
+          "inductive op language of 57 operation forms (every function of byte_buf.h except aws_hash_byte_cursor_ptr, plus init_from_file and the aws_string views). Fully proved, for every operation, every state and every operation sequence: "
           "c01_inv/c01_inv_run (len <= cap, block length = cap, cap = 0 iff no block, distinct buffers own distinct blocks, cursors "
           "inside their block — preserved by every op and every op sequence); c01_writes_in_bounds (no access outside the object's "
           "bound); c01_fail_unchanged (failure => whole state unchanged, no side condition; cat: documented weaker form "
           "c01_cat_partial); c01_prefix_stable (bytes [0,len) kept by all non-resetting ops, across growth and self-aliasing); "
           "c01_secure_zero(_run,_exact) (a secure variant releases exactly the old block, all-zero over its old capacity); "
           "c01_advance_guard, c01_nospec_eq, c01_nospec_mask, c01_write_guard; c01_split_spec, c01_split_n_spec, c01_trim_spec, c01_compare_spec, "
-          "c01_parse_u64_spec; c01_tolower_table / c01_hex_table over the two tables regenerated from the C source on every run. "
+          "c01_parse_u64_spec; c01_init_from_file (source/file.c against a simulated file with any size / data / short-read "
+          "schedule: valid result, failure => cleaned-up buffer, success => NUL terminator inside the capacity); c01_tolower_table / "
+          "c01_hex_table over the two tables, and the bridge theorems c01_gen_nospec_mask, c01_gen_predicates, c01_gen_guards, "
+          "c01_gen_checked_arith (model function = function re-translated from the C source by gen/cfun.py on every run). "
           "Nothing is left as an unproved statement. Tied to /repo by a differential run of the compiled "
           "model against byte_buf.c rebuilt from the working tree (ASan/UBSan and DEBUG_BUILD flavours, canary-guarded arrays, "
           "release-time zero inspection, forged-header stream, every ordered pair of a 58-op small-scope alphabet) plus a "
